@@ -45,6 +45,8 @@ type Frame struct {
 	loops  map[*ssa.BasicBlock]bool // loop headers already cut on this path
 	ct     *Contract                // contract being verified when this is the top frame
 	unroll int                      // loop header visits on this path (unrolling guard)
+	preSt  []*State                 // states at entry of the cut loops (innermost last)
+	preFr  []*Frame
 }
 
 type envEntry struct {
@@ -53,7 +55,7 @@ type envEntry struct {
 }
 
 func (f *Frame) clone() *Frame {
-	n := &Frame{fn: f.fn, regs: make(map[ssa.Value]Value, len(f.regs)+8), env: make(map[string]envEntry, len(f.env)), stopAt: f.stopAt, depth: f.depth, ct: f.ct, unroll: f.unroll}
+	n := &Frame{fn: f.fn, regs: make(map[ssa.Value]Value, len(f.regs)+8), env: make(map[string]envEntry, len(f.env)), stopAt: f.stopAt, depth: f.depth, ct: f.ct, unroll: f.unroll, preSt: f.preSt[:len(f.preSt):len(f.preSt)], preFr: f.preFr[:len(f.preFr):len(f.preFr)]}
 	for k, v := range f.regs {
 		n.regs[k] = v
 	}
@@ -98,6 +100,8 @@ type Exec struct {
 	splitGoals  bool
 	trigQuadrants bool
 	schemaCtr   int
+	curResultDyn types.Type
+	recvCtr     int
 	freshBase   map[string]int
 	entryState  *State
 	curSkolems  map[string]Value
@@ -246,9 +250,7 @@ func (x *Exec) symValue(st *State, t types.Type, name string) Value {
 		if s, ok := sortOf(t); ok {
 			v := freshVar(name, s)
 			if s == SInt {
-				if u.Info()&types.IsUnsigned != 0 {
-					st.axiom(mkLe(mkInt(0), v))
-				}
+				rangeAxiom(st, v, t)
 			}
 			return v
 		}
@@ -413,8 +415,8 @@ func (x *Exec) symLeaf(st *State, t types.Type, name string, idx *Term) Value {
 	case *types.Basic:
 		if s, ok := sortOf(t); ok {
 			v := x.ufApp(st, "sel_"+name, s, []*Term{idx})
-			if s == SInt && u.Info()&types.IsUnsigned != 0 {
-				st.axiom(mkLe(mkInt(0), v))
+			if s == SInt {
+				rangeAxiom(st, v, t)
 			}
 			return v
 		}
@@ -422,7 +424,7 @@ func (x *Exec) symLeaf(st *State, t types.Type, name string, idx *Term) Value {
 			return &Str{sym: x.ufApp(st, "sel_"+name+"$str", SInt, []*Term{idx})}
 		}
 	case *types.Pointer:
-		return &Opaque{typ: t, tag: "elem$" + name}
+		return &Opaque{typ: t, tag: "elem$" + name, id: x.ufApp(st, "sel_"+name+"$ptr", SInt, []*Term{idx})}
 	case *types.Struct:
 		el := make([]Value, u.NumFields())
 		for i := range el {
@@ -797,6 +799,9 @@ func (x *Exec) externalCall(st *State, name string, sig *types.Signature, args [
 	st.log = append(st.log, Event{kind: "ext:" + name, args: args})
 	st.version++
 	for _, a := range args {
+		if ifc, isI := a.(*Iface); isI && ifc.dyn != nil {
+			a = ifc.val // pointer passed as interface{} (binary.Read, fmt ...)
+		}
 		p, ok := a.(*Ptr)
 		if !ok || p.cell == nil {
 			continue
